@@ -163,24 +163,21 @@ func c01Encoder(p *load.Prog, r *oblig.Run) {
 	level, node := render.Params[1], render.Params[2]
 	pos := p.Pos(render.Pos())
 
-	// the line of the node and its write
-	var lineCall ssa.Value
-	for _, c := range su.Calls(render) {
-		cc := c.Common()
-		if cc.IsInvoke() && cc.Method.Name() == "GEDCOMLine" && cc.Value == ssa.Value(node) && len(cc.Args) == 1 && cc.Args[0] == ssa.Value(level) {
-			lineCall = c.Value()
+	// the line of the node and its write: in renderNode itself, or in a helper that is handed the level and the node
+	lineOf := func(fn *ssa.Function, lv, nd ssa.Value) ssa.Value {
+		for _, c := range su.Calls(fn) {
+			cc := c.Common()
+			if cc.IsInvoke() && cc.Method.Name() == "GEDCOMLine" && cc.Value == nd && len(cc.Args) == 1 && cc.Args[0] == lv {
+				return c.Value()
+			}
 		}
+		return nil
 	}
-	if lineCall == nil {
-		r.Add("R01.f", "line of the node", pos, "renderNode formats its node with GEDCOMLine(level)").Fail("renderNode no longer formats the node it was given with node.GEDCOMLine(indent): the written line is not the line of this node at this level")
-		return
-	}
-	r.Add("R01.f", "line of the node", pos, "renderNode formats its node with GEDCOMLine(level)").OK("node.GEDCOMLine(indent)")
-	dependsOnLine := func(v ssa.Value) bool {
+	dependsOn := func(v, target ssa.Value) bool {
 		seen := map[ssa.Value]bool{}
 		var walk func(v ssa.Value) bool
 		walk = func(v ssa.Value) bool {
-			if v == lineCall {
+			if v == target {
 				return true
 			}
 			if seen[v] {
@@ -205,7 +202,7 @@ func c01Encoder(p *load.Prog, r *oblig.Run) {
 		}
 		return walk(v)
 	}
-	isWrite := func(ins ssa.Instruction) bool {
+	writesValue := func(ins ssa.Instruction, line ssa.Value) bool {
 		c, ok := ins.(ssa.CallInstruction)
 		if !ok {
 			return false
@@ -221,9 +218,80 @@ func c01Encoder(p *load.Prog, r *oblig.Run) {
 			return false
 		}
 		for _, a := range cc.Args {
-			if dependsOnLine(a) {
+			if dependsOn(a, line) {
 				return true
 			}
+		}
+		return false
+	}
+	// helperWrites: h(.., level, .., node, ..) writes the line of that node at that level exactly once on every path to a return
+	helperWrites := func(c ssa.CallInstruction) bool {
+		h := c.Common().StaticCallee()
+		if h == nil || !p.IsRepoFunc(h) || len(h.Blocks) == 0 || h == render {
+			return false
+		}
+		var lv, nd ssa.Value
+		for i, a := range c.Common().Args {
+			if i >= len(h.Params) {
+				break
+			}
+			if a == ssa.Value(level) {
+				lv = h.Params[i]
+			}
+			if a == ssa.Value(node) {
+				nd = h.Params[i]
+			}
+		}
+		if lv == nil || nd == nil {
+			return false
+		}
+		line := lineOf(h, lv, nd)
+		if line == nil {
+			return false
+		}
+		hp, capped := simplePaths(h.Blocks[0], map[*ssa.BasicBlock]bool{}, 200)
+		if capped {
+			return false
+		}
+		for _, path := range hp {
+			last := path[len(path)-1]
+			if _, isRet := last.Instrs[len(last.Instrs)-1].(*ssa.Return); !isRet {
+				continue
+			}
+			w := 0
+			for _, b := range path {
+				for _, ins := range b.Instrs {
+					if writesValue(ins, line) {
+						w++
+					}
+				}
+			}
+			if w != 1 {
+				return false
+			}
+		}
+		return true
+	}
+	lineCall := lineOf(render, level, node)
+	viaHelper := false
+	if lineCall == nil {
+		for _, c := range su.Calls(render) {
+			if helperWrites(c) {
+				viaHelper = true
+			}
+		}
+	}
+	if lineCall == nil && !viaHelper {
+		r.Add("R01.f", "line of the node", pos, "renderNode formats its node with GEDCOMLine(level)").Fail("renderNode no longer formats the node it was given with node.GEDCOMLine(indent) (itself or through a helper that gets the level and the node): the written line is not the line of this node at this level")
+		return
+	}
+	r.Add("R01.f", "line of the node", pos, "renderNode formats its node with GEDCOMLine(level)").OK("node.GEDCOMLine(indent)")
+	isWrite := func(ins ssa.Instruction) bool {
+		if lineCall != nil && writesValue(ins, lineCall) {
+			return true
+		}
+		if c, ok := ins.(ssa.CallInstruction); ok && helperWrites(c) {
+			return true
 		}
 		return false
 	}
@@ -383,6 +451,21 @@ func c01Encoder(p *load.Prog, r *oblig.Run) {
 				if k, isK := su.ConstInt(x); !isK || k != noIndent {
 					bad = fmt.Sprintf("children are written at the constant level %v", x.Value)
 				}
+			case *ssa.Call:
+				// a helper that maps the level: every value it returns must be level+1 or NoIndent
+				h := x.Call.StaticCallee()
+				if h == nil || !p.IsRepoFunc(h) || len(h.Params) != 1 || len(x.Call.Args) != 1 || x.Call.Args[0] != ssa.Value(level) {
+					bad = "level argument of the recursive call is not indent+1"
+					return
+				}
+				saved := level
+				level = h.Params[0]
+				for _, b := range h.Blocks {
+					if ret, ok := b.Instrs[len(b.Instrs)-1].(*ssa.Return); ok && len(ret.Results) == 1 {
+						chk(ret.Results[0], depth+1)
+					}
+				}
+				level = saved
 			default:
 				bad = "level argument of the recursive call is not indent+1"
 			}
@@ -574,6 +657,28 @@ func c02LoopEnds(p *load.Prog, r *oblig.Run, dec *ssa.Function, header *ssa.Basi
 				if flagUnchanged(hif.Cond, full, header) {
 					continue
 				}
+				// the flag is a test of the reader's error itself (atEOF = err == io.EOF): the loop ends exactly when the reader says so
+				if base, neg, ok := resolveFlag(hif.Cond, full); ok {
+					if bo, isBo := base.(*ssa.BinOp); isBo && (bo.X == rerr || bo.Y == rerr) && (bo.Op == token.EQL || bo.Op == token.NEQ) {
+						other := bo.Y
+						if other == rerr {
+							other = bo.X
+						}
+						isNil := false
+						if k, isK := other.(*ssa.Const); isK && k.Value == nil {
+							isNil = true
+						}
+						// truth of the comparison that means "the reader reported something"
+						readerSaid := (bo.Op == token.EQL && !isNil) || (bo.Op == token.NEQ && isNil)
+						// the loop is left when cond evaluates to (exitSide == 0); cond = base xor neg
+						exitWhenBase := (exitSide == 0) != neg
+						if readerSaid == exitWhenBase {
+							n++
+							r.Add("R02.i", fmt.Sprintf("exit path %d", n), p.Pos(full[1].Instrs[0].Pos()), "loop condition after "+pathDesc(p, path)).OK("the loop flag is a test of readLine's error")
+							continue
+						}
+					}
+				}
 				n++
 				r.Add("R02.i", fmt.Sprintf("exit path %d", n), p.Pos(full[1].Instrs[0].Pos()), "loop condition after "+pathDesc(p, path)).Fail("after the path " + pathDesc(p, path) + " the loop condition of Decode depends on a value that is not the reader's end of input: lines after it may be dropped")
 				continue
@@ -641,4 +746,44 @@ func flagUnchanged(cond ssa.Value, path []*ssa.BasicBlock, header *ssa.BasicBloc
 		}
 	}
 	return false
+}
+
+// resolveFlag follows the loop condition backwards along the path (which
+// starts and ends at the loop header) through negations and phis to the value
+// that defines it on this path.
+func resolveFlag(cond ssa.Value, path []*ssa.BasicBlock) (base ssa.Value, negated bool, ok bool) {
+	v := cond
+	at := len(path) - 1
+	for steps := 0; steps < 32; steps++ {
+		switch x := v.(type) {
+		case *ssa.UnOp:
+			if x.Op == token.NOT {
+				v = x.X
+				negated = !negated
+				continue
+			}
+			return v, negated, true
+		case *ssa.Phi:
+			found := false
+			for i := at; i >= 1; i-- {
+				if path[i] == x.Block() {
+					for j, pr := range x.Block().Preds {
+						if pr == path[i-1] {
+							v = x.Edges[j]
+							at = i - 1
+							found = true
+						}
+					}
+					break
+				}
+			}
+			if !found {
+				return nil, false, false
+			}
+			continue
+		default:
+			return v, negated, true
+		}
+	}
+	return nil, false, false
 }
